@@ -148,6 +148,7 @@ func (m *xdsResourceManager) Get(ctx context.Context, rType xdsresource.Resource
 	if ok {
 		return res, nil
 	}
+	verifYield(ctx, 1, nil)
 
 	// Fetch resource via client and wait for the update
 	m.mu.Lock()
@@ -167,8 +168,10 @@ func (m *xdsResourceManager) Get(ctx context.Context, rType xdsresource.Resource
 	ctx, cancel := context.WithTimeout(ctx, m.opts.XDSSvrConfig.GetFetchXDSTimeout())
 	defer cancel()
 
+	verifYield(ctx, 2, nf.ch)
 	select {
 	case <-nf.ch:
+		verifYield(ctx, 3, nil)
 		// error in the notifier
 		if nf.err != nil {
 			return nil, fmt.Errorf("[XDS] manager, fetch %s resource[%s] failed, error=%s",
@@ -177,6 +180,7 @@ func (m *xdsResourceManager) Get(ctx context.Context, rType xdsresource.Resource
 		res, _ = m.getFromCache(rType, rName)
 		return res, nil
 	case <-ctx.Done():
+		verifYield(ctx, 4, nil)
 		// remove the notifier if timeout.
 		m.mu.Lock()
 		delete(m.notifierMap[rType], rName)
